@@ -871,11 +871,27 @@ pub fn iter_ops(_case: &mut Case, n: usize, _full: bool) -> Vec<Vec<Op>> {
     ];
     for how in hows {
         for bits in choice_strings(n.min(7), 6, n <= 7) {
-            ops.push(Op::IterScript { v: 0, how, script: bits.clone(), clone_at: None });
+            ops.push(Op::IterScript { v: 0, how, script: bits.clone(), skips: vec![], clone_at: None });
             if matches!(how, IterHow::Iter | IterHow::IntoIterRef | IterHow::TIter) && !bits.is_empty() {
                 for at in [0, bits.len() / 2, bits.len() - 1] {
-                    ops.push(Op::IterScript { v: 0, how, script: bits.clone(), clone_at: Some(at) });
+                    ops.push(Op::IterScript { v: 0, how, script: bits.clone(), skips: vec![], clone_at: Some(at) });
                 }
+            }
+        }
+    }
+    // nth / nth_back mixed with next / next_back (the i-th item must still be the i-th element)
+    for how in hows {
+        for (script, skips) in [
+            (vec![false, false, true], vec![0u8, 1, 0]),
+            (vec![false, false, false], vec![1, 1, 0]),
+            (vec![true, true, false], vec![0, 1, 1]),
+            (vec![false, true, false, true], vec![2, 0, 0, 2]),
+            (vec![false, false], vec![0, n.min(9) as u8]),
+            (vec![true, false], vec![n.min(9) as u8, 0]),
+        ] {
+            ops.push(Op::IterScript { v: 0, how, script: script.clone(), skips: skips.clone(), clone_at: None });
+            if matches!(how, IterHow::Iter | IterHow::TIter) {
+                ops.push(Op::IterScript { v: 0, how, script, skips, clone_at: Some(1) });
             }
         }
     }
